@@ -19,7 +19,7 @@ except ImportError:
 
 # kinds of a supplied value.  'int' and 'bool' are symbolic (all values); the others are representatives of a type
 SCALAR_KINDS = ('int', 'bool', 'real', 'str', 'None', 'nan', 'tuple', 'list', 'complex')
-DATA_KINDS = ('ints-tuple', 'ints-list', 'ints-bytearray', 'text', 'None', 'int', 'real', 'floats', 'strs', 'nested')
+DATA_KINDS = ('ints-tuple', 'ints-list', 'ints-bytearray', 'ints-SysexData', 'text', 'None', 'int', 'real', 'floats', 'strs', 'nested')
 REJECT = (ValueError, TypeError, AttributeError)
 
 
@@ -48,6 +48,10 @@ def make_value(h, kind, name='v'):
         return h.int_seq(name, list, mutable=True)
     if kind == 'ints-bytearray':
         return h.int_seq(name, bytearray, lo=0, hi=255, mutable=True)
+    if kind == 'ints-SysexData':
+        # the library's own tuple subclass, holding ARBITRARY integers: its class is no evidence that it was ever checked
+        import mido.messages.messages as M
+        return h.int_seq(name, M.SysexData, mutable=False)
     if kind == 'text':
         return 'ab'
     if kind == 'floats':
@@ -71,7 +75,7 @@ def acceptable(name, kind, v):
     if name == 'time':
         return kind in ('int', 'bool', 'real', 'nan')
     if name == 'data':
-        if kind in ('ints-tuple', 'ints-list', 'ints-bytearray'):
+        if kind in ('ints-tuple', 'ints-list', 'ints-bytearray', 'ints-SysexData'):
             d = V(v)
             return All(0, length(d), lambda k: S.data_byte(at(d, k)))
         return False
@@ -83,7 +87,7 @@ def acceptable(name, kind, v):
 
 
 def not_acceptable(name, kind, v):
-    if name == 'data' and kind in ('ints-tuple', 'ints-list', 'ints-bytearray'):
+    if name == 'data' and kind in ('ints-tuple', 'ints-list', 'ints-bytearray', 'ints-SysexData'):
         d = V(v)
         return Ex(0, length(d), lambda k: Not(S.data_byte(at(d, k))))
     a = acceptable(name, kind, v)
